@@ -388,12 +388,14 @@ where
     D: Dimension,
 {
     pub fn new(data: ArrayBase<Sd, D>) -> Self {
-        let x = Array1::from_iter((0..data.shape()[0]).map(|i| {
+        // data with less than two axes is rejected by `build`, a missing axis gets an empty default axis
+        let len_of = |axis: usize| data.shape().get(axis).copied().unwrap_or(0);
+        let x = Array1::from_iter((0..len_of(0)).map(|i| {
             cast(i).unwrap_or_else(|| {
                 unimplemented!("casting from usize to a number should always work")
             })
         }));
-        let y = Array1::from_iter((0..data.shape()[1]).map(|i| {
+        let y = Array1::from_iter((0..len_of(1)).map(|i| {
             cast(i).unwrap_or_else(|| {
                 unimplemented!("casting from usize to a number should always work")
             })
